@@ -259,7 +259,7 @@ def run(ctx):
             continue
         ctx.add_tlc(r, lab)
         if q is False and not r.violation:
-            for a in (("Add", "Multi") if inst[4] else ("Add",)):
+            for a in (("AddAny", "MultiAny") if inst[4] else ("AddAny",)):
                 if r.coverage.get(a, (0, 0))[1] == 0:
                     raise Machinery("vacuity: action %s never taken in %s" % (a, lab))
         if q is False and r.violation:
@@ -351,7 +351,7 @@ def run(ctx):
     samples.append({"kind": "T: research.backtest spacing", "events": ev[:5]})
     # ------------------------------------------------------------ TLC decides
     verdicts, results = tlc.validate_traces("TraceCandleSeries", "TraceCandleSeries.cfg", traces, ctx.scratch,
-                                            parts=ctx.pick(8, 14), timeout=1800)
+                                            parts=ctx.pick(8, 10), timeout=1800, heap="3g", max_procs=10)
     byid = {t["id"]: t for t in traces}
     seen = {}
     for r in results:
